@@ -2,6 +2,8 @@ import QG.Spec.GateAlgebra
 import QG.Lemmas.OptimizerRuns
 import QG.Lemmas.OptimizerSnippet
 import QG.Lemmas.OptimizerRegroup
+import QG.Spec.Register
+import QG.Lemmas.BinaryApply
 
 /-!
 # C02 — gate fusion never changes what a gate list computes
@@ -18,6 +20,7 @@ qubits of a two-qubit item distinct — adjacent or not, ascending or not.
 namespace QG.C02
 open QG.Model.Optimizer QG.Spec QG.Spec.GateAlgebra QG.Lemmas.Optimizer
 
+section abstract
 variable {M2 M4 Op : Type} [Monoid Op] {ops : MatOps M2 M4} {n : Nat}
 
 /-! ### the four levels and `process_snippet` -/
@@ -146,5 +149,101 @@ example (A B : M2) (G : M4) : NoAdjSame [Item.one A 0, Item.two G 0 1, Item.one 
   simp [NoAdjSame, oneQ]
 example (A B : M2) : ¬ NoAdjSame ([Item.one A 0, Item.one B 0] : List (Item M2 M4)) := by
   simp [NoAdjSame, oneQ]
+
+end abstract
+
+/-! ### the concrete register: the interface is not vacuous, and the statements hold for matrices
+
+`Register.gateAlgebra R n` interprets one- and two-qubit matrices over any commutative semiring `R`
+(`ℂ`: the code's intent; the Gaussian integers: what the correspondence runs) as operators on
+`n`-qubit states `(Fin n → Bool) → R` in numpy's index convention, and satisfies every gate-algebra
+law.  Equality of operators is equality of their action on every state. -/
+section register
+open QG.Model.Binary QG.Spec.Register QG.Lemmas.Binary
+variable {R : Type} [CommSemiring R]
+
+/-- the register is a model of the interface -/
+example (n : Nat) : GateAlgebra (matOps R) n (Op R n) := gateAlgebra R n
+
+/-- **C02, optimizer, for matrices**: at every level the returned list acts on every `n`-qubit state
+exactly like the input list, is not longer, and nothing is raised. -/
+theorem optimize_sem_register (n : Nat) (level : Int) (h0 : 0 ≤ level) (h4 : level ≤ 4)
+    (raw : List (Raw (M2 R) (M4 R))) (hwf : WFList n (raw.map normalize)) :
+    ∃ l', optimize (matOps R) level n raw = .ok l' ∧ l'.length ≤ raw.length ∧
+      ∀ ψ : State R n, (gateAlgebra R n).sem l' ψ = (gateAlgebra R n).sem (raw.map normalize) ψ := by
+  obtain ⟨l', h1, h2, h3, _⟩ := optimize_sem (gateAlgebra R n) level h0 h4 n (le_refl n) raw hwf
+  exact ⟨l', h1, h3, fun ψ => by rw [h2]⟩
+
+/-! ### the index-based backend -/
+
+/-- `create_sparse` for a one-qubit item `[g, [q]]` on `N` qubits (`q_n_used = range(N)` without `q`):
+it raises nothing, and the sum of its triplets applied to a state is the embedding `E1 g q` -/
+theorem create_sparse_spec_one (N q : Nat) (hq : q < N) (g : M2 R) :
+    ∃ T, createSparse (regEntries R) (Item.one g q) ((List.range N).erase q) [q] N = .ok T ∧
+      ∀ psi : List R, psi.length = 2 ^ N →
+        spmv (semiringScalar R) (2 ^ N) T psi = .ok (listOf (E1 g ⟨q, hq⟩ (vecOf psi))) :=
+  createSparse_one N q hq g
+
+/-- `create_sparse` for a two-qubit item `[g, [a, b]]` on any ordered pair of distinct qubits:
+the sum of its triplets applied to a state is the embedding `E2 g a b` -/
+theorem create_sparse_spec_two (N a b : Nat) (ha : a < N) (hb : b < N) (hab : a ≠ b) (g : M4 R) :
+    ∃ T, createSparse (regEntries R) (Item.two g a b) (((List.range N).erase a).erase b) [a, b] N = .ok T ∧
+      ∀ psi : List R, psi.length = 2 ^ N →
+        spmv (semiringScalar R) (2 ^ N) T psi = .ok (listOf (E2 g ⟨a, ha⟩ ⟨b, hb⟩ (vecOf psi))) :=
+  createSparse_two N a b ha hb hab g
+
+/-- `create_dense` on a one-qubit register assembles the matrix of `E1 g 0` (`E1_eq_matrix`: with no
+other qubit the entry `(x, y)` of the embedding is `g (x 0) (y 0)`) -/
+theorem create_dense_spec_one (g : M2 R) :
+    createDense (regEntries R) (Item.one g 0) [] [0] 1 =
+      .ok ((List.range (2 ^ 1)).map fun i => (List.range (2 ^ 1)).map fun j =>
+        g (bitsFn 1 i (0 : Fin 1)) (bitsFn 1 j (0 : Fin 1))) :=
+  createDense_one g
+
+/-- `create_dense` for a two-qubit gate on a two-qubit register, either order of the pair, assembles
+the matrix of `E2 g a b` (entry `(x, y)` = `g (x a, x b) (y a, y b)`) -/
+theorem create_dense_spec_two (g : M4 R) (a b : Fin 2) (hab : a ≠ b) :
+    createDense (regEntries R) (Item.two g a.val b.val) [] [a.val, b.val] 2 =
+      .ok ((List.range (2 ^ 2)).map fun i => (List.range (2 ^ 2)).map fun j =>
+        g (bitsFn 2 i a, bitsFn 2 i b) (bitsFn 2 j a, bitsFn 2 j b)) :=
+  createDense_two g a b hab
+
+/-- one pass of `for item in mp_list_opt:` (dense or sparse, whichever the code picks) applies the
+embedding of the item to the state and raises nothing -/
+theorem apply_item_spec (N : Nat) (item : Item (M2 R) (M4 R)) (hwf : WFItem N item) (psi : List R)
+    (hpsi : psi.length = 2 ^ N) :
+    applyItem (semiringScalar R) (regEntries R) N psi item =
+      .ok (listOf ((gateAlgebra R N).item item (vecOf psi))) :=
+  applyItem_spec N item hwf psi hpsi
+
+/-- **C02, backend.**  For every qubit count, every non-empty well-formed list and every state vector
+of length `2^N`, `BinaryBackend(N).statevector` raises nothing and returns exactly the state obtained
+by applying the items one after another. -/
+theorem binary_spec (N : Nat) (raw : List (Raw (M2 R) (M4 R))) (hwf : WFList N (raw.map normalize))
+    (hne : raw ≠ []) (psi : List R) (hpsi : psi.length = 2 ^ N) :
+    statevector (semiringScalar R) (matOps R) (regEntries R) N raw psi =
+      .ok (listOf ((gateAlgebra R N).sem (raw.map normalize) (vecOf psi))) := by
+  obtain ⟨l', h1, h2, _, h4⟩ := optimize_sem (gateAlgebra R N) 4 (by norm_num) (le_refl _) N (le_refl N) raw hwf
+  unfold statevector
+  have : raw.isEmpty = false := by
+    cases raw with
+    | nil => exact absurd rfl hne
+    | cons x xs => rfl
+  simp only [this, Bool.false_eq_true, if_false, h1]
+  rw [applyItems_spec N l' h4 psi hpsi, h2]
+
+/-- an empty list is refused (`assert len(mp_list) > 0`) -/
+theorem binary_empty (N : Nat) (psi : List R) :
+    statevector (semiringScalar R) (matOps R) (regEntries R) N [] psi = .error .assertion := rfl
+
+/-- non-vacuity of `binary_spec`: a reversed, non-adjacent pair with one-qubit gates around it on three
+qubits, `[q,-1]` form included, and a state vector of the right length -/
+example (A B : M2 R) (G : M4 R) :
+    WFList 3 ([Raw.single A 0, Raw.pair G 2 0, Raw.padded B 1].map normalize) ∧
+      ([Raw.single A 0, Raw.pair G 2 0, Raw.padded B 1] : List (Raw (M2 R) (M4 R))) ≠ [] ∧
+      (List.replicate 8 (1 : R)).length = 2 ^ 3 := by
+  refine ⟨by simp [WFList, WFItem, QG.Model.Optimizer.normalize], by simp, by simp⟩
+
+end register
 
 end QG.C02
